@@ -80,31 +80,48 @@ def run_impl(keys, eq, wc):
     return {"ok": {k: (set(ea[k]), set(wa[k])) for k in ea}}
 
 
-def run_store(keys, eq, wc, rng):
+def run_store(keys, eq, wc, rng, stages=1):
     """the same graph registered link by link through the designer front-end's store
-    (Constraints.init / add_eq / add_wc / propagate), links in random order and orientation"""
+    (Constraints.init / add_eq / add_wc / propagate), links in random order and orientation.
+    With stages > 1 the store is used incrementally: whole connected components are initialised, linked and propagated stage by
+    stage (a link can only be registered between items that were not propagated yet, their collections being lists), and
+    `propagate()` may be called again when nothing was added: the final state must still be the parity closure of everything."""
     from peppercompiler.design.constraint_load import Constraints
     c = Constraints()
-    for k in keys:
-        c.init(k)
-    links = []
     pos = {k: i for i, k in enumerate(keys)}
-    for kind, d in (("eq", eq), ("wc", wc)):
+    for d in (eq, wc):
         for a in keys:
-            for b in set(d[a]):
-                if b not in pos:
-                    return None
-                if pos[a] < pos[b]:
-                    links += [(kind, a, b)] * d[a].count(b)
-                elif a == b:
-                    links += [(kind, a, a)] * ((d[a].count(a) + 1) // 2)
-    rng.shuffle(links)
-    for kind, a, b in links:
-        if rng.random() < 0.5:
-            a, b = b, a
-        (c.add_eq if kind == "eq" else c.add_wc)(a, b)
+            if any(b not in pos for b in d[a]):
+                return None
+    stage_of = {}
+    if stages > 1:
+        spec = bfs_spec(keys, eq, wc)
+        for k in keys:
+            if k not in stage_of:
+                st_ = rng.randrange(stages)
+                for y in spec[k][0] | spec[k][1] | {k}:
+                    stage_of[y] = st_
     try:
-        c.propagate()
+        for st_ in range(stages):
+            mine = [k for k in keys if stage_of.get(k, 0) == st_]
+            for k in mine:
+                c.init(k)
+            links = []
+            for kind, d in (("eq", eq), ("wc", wc)):
+                for a in mine:
+                    for b in set(d[a]):
+                        if pos[a] < pos[b]:
+                            links += [(kind, a, b)] * d[a].count(b)
+                        elif a == b:
+                            links += [(kind, a, a)] * ((d[a].count(a) + 1) // 2)
+            rng.shuffle(links)
+            for kind, a, b in links:
+                if rng.random() < 0.5:
+                    a, b = b, a
+                (c.add_eq if kind == "eq" else c.add_wc)(a, b)
+            c.propagate()
+            if stages > 1 and rng.random() < 0.3:
+                c.propagate()
     except AssertionError:
         return {"err": "assert"}
     except KeyError:
@@ -208,11 +225,13 @@ def check_case(res, keys, eq, wc, rng, tag):
         res.violations.append({"what": "with the link collections given as %s the result differs from the parity closure, or the caller's collections were changed" % rep,
                                "input": dict(inp, representation=rep), "observed": repr(r3)[:400], "expected": repr({k: spec[k] for k in keys})[:400],
                                "sig": "C07:representation:" + rep, "cmd": cmd + "  # link collections as " + rep})
-    rs = run_store(keys, eq, wc, rng)
+    nst = rng.choice([1, 1, 2, 3])
+    res.count("store-stages:%d" % nst)
+    rs = run_store(keys, eq, wc, rng, stages=nst)
     if rs is not None and rs != r:
         bad = next((k for k in keys if "ok" not in rs or rs["ok"].get(k) != spec[k]), None)
         res.violations.append({"what": "links registered through the Constraints store (init / add_eq / add_wc / propagate) do not give the "
-                                       "parity closure (item %r)" % (bad,), "input": inp,
+                                       "parity closure (item %r; store used in %d stage(s) of whole connected components)" % (bad, nst), "input": inp,
                                "observed": repr(rs["ok"].get(bad)) if "ok" in rs else rs, "expected": repr(spec.get(bad)),
                                "sig": "C07:store-closure", "cmd": "from peppercompiler.design.constraint_load import Constraints  # init, add_eq, add_wc, propagate"})
     # order independence on the real code
